@@ -77,7 +77,11 @@ def frame_case(draw, max_rows=300):
     case = {'nrows': nrows, 'cols': cols, 'label_pos': draw(st.integers(0, ncols - 1)),
             'pairwise': draw(st.booleans()), 'heuristic': draw(st.sampled_from(HEURISTICS)),
             # the batch enters either at the rank-graph function or one level up, as the raw rows of a mini-batch
-            'entry': draw(st.sampled_from(['mixed_rank_graph', 'mixed_rank_graph', 'compute_batch_ranking']))}
+            'entry': draw(st.sampled_from(['mixed_rank_graph', 'mixed_rank_graph', 'compute_batch_ranking'])),
+            # row labels of the frame handed to mixed_rank_graph (a frame that was shuffled / sorted / filtered before keeps its labels)
+            'index': draw(st.sampled_from(['range', 'range', 'shuffled', 'gaps'])),
+            # compute_batch_ranking entry: columns whose values are all numbers are declared numeric (as described sources do)
+            'declare_numeric': draw(st.booleans())}
     if style == 'interaction':
         # column names as the tool itself builds them for interaction features ("a AND b"): name-based bookkeeping must not
         # confuse the pairs ('a AND b', 'c') and ('a', 'b AND c'); the four names are always present, the label sits elsewhere
@@ -208,10 +212,27 @@ def oracle(case, rec):
     if case.get('entry') == 'compute_batch_ranking' and len(set(names)) == len(names):
         import logging
         rows = [list(r) for r in zip(*cols)]
-        summary = compute_batch_ranking(rows, set(), args, stubs.InlinePool(), list(names), logging.getLogger('c05'), stubs.PBar())[0]
+        numeric = set()
+        if case.get('declare_numeric'):
+            def _num(v):
+                try:
+                    return v == '' or math.isfinite(float(v))
+                except ValueError:
+                    return False
+            numeric = {n for n, c in zip(names, cols) if n != 'label' and all(_num(v) for v in c) and any(v != '' for v in c)}
+            if numeric:
+                rec.cls('declared-numeric-columns')
+        summary = compute_batch_ranking(rows, numeric, args, stubs.InlinePool(), list(names), logging.getLogger('c05'), stubs.PBar())[0]
         out = summary.triplet_scores
         rec.cls('entry=compute_batch_ranking')
     else:
+        kind_ix = case.get('index', 'range')
+        nrow = len(df)
+        if kind_ix == 'shuffled' and nrow > 1:
+            df.index = np.random.Generator(np.random.PCG64(nrow)).permutation(nrow)
+            rec.cls('index=shuffled')
+        elif kind_ix == 'gaps':
+            df.index = [3 * i + 2 for i in range(nrow)]
         out = mixed_rank_graph(df, args, stubs.InlinePool(), stubs.PBar()).triplet_scores
     codes = {n: codes_of(c) for n, c in zip(names, cols)}
     nonconst = sum(1 for c in cols if len(set(c)) > 1)
